@@ -232,9 +232,9 @@ def codec_roundtrip(rep, rng, n):
     from wire import go_float_str
     mops = []
     for j, (v, f, text) in enumerate(json_texts):
-        fl = set()
+        fl = {}
         jsoncheck.floats_of(v, fl)
-        mops.append({"op": "jsonenc", "id": j, "docs": [to_wire(v)], "jf": {go_float_str(x): jsoncheck.go_json_float(x) for x in fl}})
+        mops.append({"op": "jsonenc", "id": j, "docs": [to_wire(v)], "jf": {k: jsoncheck.go_json_float(x) for k, x in fl.items()}})
     mres = run_model(mops)
     for j, (v, f, text) in enumerate(json_texts):
         m = mres.get(j) or {}
